@@ -20,7 +20,7 @@ RULE = ('caches (and FanoutCache shards) holding inline, binary-file, text-file 
         'must be gone. evaluations = damage cases; distinct_nontrivial = distinct (container, sorted damage kinds, '
         'value modes hit) cases')
 DISTINCT = ('damage_cases',)
-REQUIRED = ('population_empty', 'cases_losing_every_value_file', 'spelling_relative', 'spelling_dotdot', 'single_damage_cases', 'combined_damage_cases', 'fanout_cases', 'plain_checks_compared', 'fix_then_clean',
+REQUIRED = ('population_many', 'population_empty', 'cases_losing_every_value_file', 'spelling_relative', 'spelling_dotdot', 'single_damage_cases', 'combined_damage_cases', 'fanout_cases', 'plain_checks_compared', 'fix_then_clean',
             'items_read_after_fix', 'kinds_deleted', 'kinds_truncated', 'kinds_extended', 'kinds_unknown', 'kinds_emptydir',
             'kinds_count', 'kinds_size', 'checks_refused_under_a_held_lock', 'writes_completed_right_before_the_lock_of_check', 'journal_mode_wal', 'journal_mode_truncate', 'journal_mode_persist', 'journal_mode_delete')
 ASSUMPTIONS = ('a repair may legitimately add "empty directory" warnings for directories it has just emptied',)
@@ -47,7 +47,11 @@ def populate(c, population='full'):
     }
     # what the cache holds is a dimension: everything, only items with value files (a repair that deletes them all
     # leaves an empty table), a single one, nothing
-    keep = {'full': list(items), 'files_only': ['bin_file', 'text_file', 'pickle_file', ('user', 1), TWIN, 7],
+    if population == 'many':
+        # more file-backed items than any page the library may read rows in (its bulk operations use pages of 100)
+        for i in range(260):
+            items['many-%03d' % i] = (b'M' if i % 2 else 'm') * (T + 1 + i % 9)
+    keep = {'full': list(items), 'many': list(items), 'files_only': ['bin_file', 'text_file', 'pickle_file', ('user', 1), TWIN, 7],
             'single_file': ['pickle_file2'], 'empty': []}[population]
     items = {k: v for k, v in items.items() if k in keep}
     for i, (k, v) in enumerate(items.items()):
@@ -204,7 +208,7 @@ def _case(dc, sc, res, rng, kinds, fanout, label, spelling):
     # none of them is a value file, none is damage
     journal = gen.pick(rng, ['wal', 'wal', 'truncate', 'persist', 'delete'])
     res.count('journal_mode_' + journal)
-    population = gen.pick(rng, ['full', 'full', 'full', 'files_only', 'single_file', 'empty'])
+    population = gen.pick(rng, ['full', 'full', 'full', 'files_only', 'single_file', 'empty', 'many'])
     res.count('population_' + population)
     if fanout:
         f = dc.FanoutCache(d, shards=3, disk_min_file_size=T, **common.journal_kw(journal))
